@@ -187,6 +187,14 @@ def main():
                     if k in r:
                         viol(f"C11|named|free-variable-accepted|{k}", j, r, "free variable converted Ok")
                         bad = True
+                # the code generator's path: CodeGenInterner renumbering, then conversion. A free
+                # variable must still be free afterwards (rejected), never captured by a binder
+                # that happens to receive the same fresh unique.
+                if "interned_to_nd" in r:
+                    viol("C11|named|free-variable-captured-after-re-interning", j, r, "free variable converted Ok after CodeGenInterner")
+                    bad = True
+                elif "interned_to_nd_err" in r:
+                    chk.count("free_named_rejected_after_re_interning")
             else:
                 for k in ("to_nd", "to_d"):
                     if r.get(k) != want:
@@ -199,6 +207,9 @@ def main():
                     elif try_resolve(r[k]) != want:
                         viol(f"C11|named|roundtrip-not-alpha-equivalent|{k}", j, r, {"want": want, "got": try_resolve(r[k])})
                         bad = True
+                if r.get("interned_to_nd", want) != want or "interned_to_nd_err" in r:
+                    viol("C11|named|re-interned-program-converts-differently", j, r, {"want": want})
+                    bad = True
                 if r.get("nd_to_name_to_nd", want) != want:
                     viol("C11|named|roundtrip2", j, r, {"want": want})
                     bad = True
